@@ -1035,12 +1035,19 @@ class C20(PropBase):
                 if ans is None or ans.startswith("P;;") or " dst=" not in ans:
                     continue
                 a = parse_answer(ans)
-                if a.get("dst", "-") in ("-", "X") or a.get("dseq", "-") in ("-", "X") or a["exit"] != "0":
+                if a.get("dst", "-") in ("-", "X") or a.get("dseq", "-") in ("-", "X") or a["exit"] not in ("0", "1"):
                     continue
                 prim = parse_sink(a["stdout"] if parse_case(case)["out"] == "-" else a["out"])
-                if not (isinstance(prim, tuple) and ({"D", "DB"} & prim[2])):
-                    continue          # an incomplete report (reader gone): the oracle judges the prefix
-                dq.setdefault(a["dst"], []).append((case, prof, a["dseq"]))
+                if not isinstance(prim, tuple):
+                    continue
+                if {"D", "DB"} & prim[2]:
+                    if a["exit"] != "0":
+                        continue
+                    dq.setdefault(a["dst"], []).append((case, prof, a["dseq"], True))
+                elif {"D<", "DB<"} & prim[2]:
+                    # an io error / a reader that went away in the middle of the dump: whole sections in the model's order, then
+                    # the beginning of the next one (c20_dump_io_error_leaves_prefix)
+                    dq.setdefault(a["dst"], []).append((case, prof, a["dseq"], False))
         dump_compared = dump_mism = 0
         if dq and model is not None:
             exe = os.path.join(vlib.ALT_DIR if getattr(vlib, "ALT", False) else vlib.CACHE, "ocaml", "c20", "model")
@@ -1052,8 +1059,20 @@ class C20(PropBase):
             for k, p in zip(keys, pred):
                 if p is None:
                     continue
-                for case, prof, dseq in dq[k]:
+                for case, prof, dseq, complete in dq[k]:
                     dump_compared += 1
+                    if not complete:
+                        got = dseq.split(",")
+                        if got and got[-1].startswith("?"):
+                            got = got[:-1]
+                        want = p.strip().split(",")
+                        if got == want[:len(got)] and len(got) < len(want):
+                            continue
+                        dump_mism += 1
+                        vio.append({"case": case, "profile": prof, "found_input": True,
+                                    "what": "correspondence (--dump, interrupted): the report holds the sections %s, the model's sequence is %s"
+                                            % (dseq, p.strip()), "model": p.strip(), "impl": dseq})
+                        continue
                     if p.strip() != dseq:
                         dump_mism += 1
                         vio.append({"case": case, "profile": prof, "found_input": True,
